@@ -6,25 +6,45 @@ from harness.interp_corr import m3_stream
 from vp.core import Check, Failure
 
 META = dict(
-    level_text="Lean 4: (1) a table of every call site of Engine.tick / read_process_image / write_process_image with its "
-               "enclosing exception handlers is regenerated from the source on every run and `decide`d against the "
-               "raise table: every may-raise call is caught by a handler ending in set_error_state; (2) over a shell "
-               "model of that handler structure no exception escapes a tick and an interpreter failure ends paused "
-               "with Method Status Error; (3) over the interpreter model a raising instruction marks its node failed "
-               "and stores the error, micro-steps never clear it, an accepted method edit clears it. Tie: translator "
-               "(table) + differential execution of malformed programs on the real PInterpreter vs the model; oracle: "
-               "malformed texts, random injections and control-command schedules on the real engine — no exception "
-               "may escape Engine.tick, failures pause with status Error and a failed line, Stop and a corrected "
-               "method are accepted afterwards.",
-    level_note="PARTIAL: exceptions from call sites that the raise table lists as non-raising (tag callbacks, listeners, "
-               "notify_tag_updates asserts) cannot be exhibited by the model; only the search on the real engine can "
-               "find them. Assumes hardware/UOD callbacks return values in their declared domains.",
-    technique="Lean 4 proof over a source-regenerated handler table (decide) + model theorems + differential correspondence + engine oracle",
+    level_text="Lean 4: (1) a table of EVERY call expression of Engine.tick / read_process_image / write_process_image / "
+               "set_error_state / _apply_safe_state (any callee, also inside handlers and loop heads) and the phases of a "
+               "tick with their guards and handlers is regenerated from the source on every run; against a total raise "
+               "table (default: may raise anything; the calls assumed not to raise are listed one by one) every call that "
+               "may raise sits in a try that catches it with a handler ending in set_error_state (`decide`); (2) a model "
+               "of the try/except shell of Engine.tick executes that phase table under a fault plan: for every plan that "
+               "respects the raise table a tick does not raise; a raising interpreter phase ends paused with Method "
+               "Status Error; an accepted Stop stops the run within `stopTicks` command phases whatever guarded faults "
+               "recur; a merged corrected method clears the error and Unpause resumes; what happens when an unguarded "
+               "phase or set_error_state itself raises; (3) over the interpreter model a raising instruction marks its "
+               "node failed and stores the error, micro-steps never clear it, an accepted method edit clears it. Tie: "
+               "fault injection into the real Engine.tick phase by phase (every callee of the tick patched to raise on "
+               "chosen ticks) against the shell model, differential execution of malformed programs on the real "
+               "PInterpreter vs the interpreter model; oracle: malformed texts, failing UOD commands, random injections "
+               "and control-command schedules on the real engine — no exception may escape Engine.tick, a failing "
+               "instruction (interpreter phase or command phase) pauses with status Error and a failed line, also in a "
+               "second run after Stop+Start; Stop stops within the model's bound; a corrected method merged while paused "
+               "on the error sets Method Status OK and Unpause resumes the run.",
+    level_note="PARTIAL: (a) exceptions from calls the raise table lists as non-raising (logging, tag accessors, hardware/UOD "
+               "callbacks assumed in-domain, listeners) cannot be exhibited by the theorems — the fault-injection stream "
+               "shows they would escape the tick, only the search on the real engine can find inputs that trigger them; "
+               "(b) FINDING: a Stop accepted by the engine is lost when a method is saved before the next tick "
+               "(C13_counterexample; the Stop theorems hold without an edit in between, C13_partial); (c) 'marked failed "
+               "in the method state' for the command phase is oracle-only. Assumes hardware/UOD callbacks return values "
+               "in their declared domains.",
+    technique="Lean 4 proof over a source-regenerated call/phase table (decide) + shell-model theorems (induction over the "
+              "phase list) + fault-injection correspondence + differential correspondence + engine oracle",
 )
 MODULE = "OPM.Properties.C13"
-REQUIRED = ["OPM.C13.tick_sites_guarded", "OPM.C13.guarded_sites_present", "OPM.C13.shell_tick_never_raises",
-            "OPM.C13.interpreter_error_pauses", "OPM.C13.raise_marks_failed", "OPM.C13.lastError_persists_stepGen",
-            "OPM.C13.merged_method_clears_error"]
+REQUIRED = ["OPM.C13.calls_accounted", "OPM.C13.guarded_sites_present", "OPM.C13.set_error_state_shape",
+            "OPM.C13.table_wf", "OPM.C13.phases_guarded", "OPM.C13.tick_never_raises",
+            "OPM.C13.tick_never_raises_guarded", "OPM.C13.unguarded_fault_escapes",
+            "OPM.C13.failing_instruction_pauses", "OPM.C13.last_error_persists",
+            "OPM.C13.stop_accepted_in_error_state", "OPM.C13.stop_completes", "OPM.C13.stop_completes_clean",
+            "OPM.C13.stop_completes_whatever_recurs", "OPM.C13.corrected_method_clears_error",
+            "OPM.C13.corrected_method_resumes", "OPM.C13.C13_counterexample", "OPM.C13.C13_partial",
+            "OPM.C13.raise_marks_failed", "OPM.C13.lastError_persists_stepGen", "OPM.C13.merged_method_clears_error"]
+
+STOP_TICKS = 2     # = OPM.TickShell.stopTicks (theorem stop_completes); cross-checked against the driver on every run
 
 UNICODE_LINES = ["Mark: æøå", "   ", "\tMark: tab", "Mark: a # c", "# only comment", "Watch: T0 > ", "Watch:", "Block:",
                  "End block", "Call macro: x", "Macro:", "Wait: -1s", "Wait: 1 parsec", "5 5 Mark", "1e3 Mark: a",
@@ -35,7 +55,20 @@ UNICODE_LINES = ["Mark: æøå", "   ", "\tMark: tab", "Mark: a # c", "# only co
                  "Simulate: Method Status = x", "Simulate: Base = zz", "Simulate: Block = 7", "Simulate: Mark = 7",
                  "Simulate: Clock = abc", "Simulate: Block Time = abc", "Simulate: Scope Time = q", "Simulate: Run Counter = z",
                  "Simulate off: Run Time", "Watch: Run Time > 1", "Watch: Block > 1", "Watch: Connection Status = Connected", "0.5 Watch: T1 = 1", "    Mark: deep", "CmdA: 5", "CmdB", "Unknown thing: 1", "CmdNum: 5",
-                 "CmdNum: lots", "CmdNum: lots", "CmdNum"]
+                 "CmdNum: lots", "CmdNum: lots", "CmdNum", "CmdFail", "CmdFailLater", "Pause: 5x", "Hold: abc",
+                 "Info", "Stop: now", "Wait: 0.25s", "Mark: m"]
+
+
+def uod_extra(b):
+    """UOD commands whose exec function fails: a failing instruction that is not an interpretation error."""
+    def exec_fail(cmd, **kvargs):
+        raise ValueError("exec failed")
+
+    def exec_fail_later(cmd, **kvargs):
+        cmd._verif_iter = getattr(cmd, "_verif_iter", 0) + 1
+        if cmd._verif_iter >= 3:
+            raise RuntimeError("exec failed in its third iteration")
+    return b.with_command(name="CmdFail", exec_fn=exec_fail).with_command(name="CmdFailLater", exec_fn=exec_fail_later)
 
 
 def gen_case(ctx: Check) -> dict:
@@ -56,16 +89,24 @@ def gen_case(ctx: Check) -> dict:
         elif x < 0.13:
             sched.append(("tag", f"T{rng.randrange(3)}", rng.randrange(4)))
         sched.append(("tick",))
-    return {"pcode": pcode, "sched": sched}
+    return {"pcode": pcode, "sched": sched, "end": rng.choice(["stop", "fix", "fix", "restart"])}
 
 
 SWEEP_METHODS = ["Mark: a\nCmdNum: lots\nMark: b", "CmdNum: lots", "Mark: a\nFrobnicate\nMark: b",
                  "Block: B\n    CmdNum: x\n    End block\nMark: c", "Watch: T0 = 0\n    CmdNum: lots\nMark: a",
                  "CmdB\nCmdNum: lots", "Mark: a\nWait: banana"]
+FAILING_METHODS = ["Mark: a\nCmdFail\nMark: b", "Mark: a\nCmdFailLater\nMark: b", "Mark: a\nPause: 5x\nMark: b",
+                   "Hold: abc", "Mark: a\nWatch: T0 > \n    Mark: w\nMark: b", "Mark: a\nUnknown thing: 1\nMark: b",
+                   "Mark: a\nSimulate: T0 = x\nMark: b", "Mark: a\nWait: 1 parsec", "Info\nMark: b", "Mark: a\nStop: now",
+                   "Mark: a\nBase: zz\nMark: b", "Mark: a\nRun counter: x", "Mark: a\nCall macro: nosuch\nMark: b",
+                   "Block: B\n    CmdFail\n    End block\nMark: c", "Watch: T0 = 0\n    Hold: 5x\nMark: a",
+                   "Mark: a\nWait: banana", "Mark: a\nCmdNum: lots\nMark: b", "Mark: a\nRestart: 5\nMark: b",
+                   "Simulate: Clock = abc\nMark: a\nFrobnicate\nMark: b"]
 
 
 def sweep_cases() -> list[dict]:
-    """Stop / Pause / Unpause requested at every tick around a failing instruction."""
+    """Stop / Pause / Unpause requested at every tick around a failing instruction; every kind of failing
+    instruction followed by each of the end games (Stop / corrected method / Stop+Start / Stop lost by an edit)."""
     out = []
     for m in SWEEP_METHODS:
         for cmd in ("Stop", "Pause", "Unpause"):
@@ -73,105 +114,494 @@ def sweep_cases() -> list[dict]:
                 sched = [("tick",)] * t + [("user", cmd)] + [("tick",)] * (12 - t)
                 if cmd != "Stop":
                     sched += [("user", "Stop")] + [("tick",)] * 5
-                out.append({"pcode": m, "sched": sched})
+                out.append({"pcode": m, "sched": sched, "end": "stop"})
+    for m in FAILING_METHODS:
+        for end in ("stop", "fix", "restart"):
+            out.append({"pcode": m, "sched": [("tick",)] * 8, "end": end})
+    out.append({"pcode": FAILING_METHODS[0], "sched": [("tick",)] * 8, "end": "stop-then-fix"})
     return out
 
 
+class Instrument:
+    """Observational wrappers (they call the original and re-raise): which phase of a tick failed."""
+
+    def __init__(self):
+        self.interp_calls = 0
+        self.interp_raised: list[str] = []      # this tick
+        self.cmd_ok = 0                          # CommandManager.tick calls that returned normally (whole run)
+        self.cmd_failed: list[tuple] = []        # this tick: (name, source, node id, node failed after the raise)
+        self.set_error_calls = 0
+        self.scheduled = 0                       # CommandManager.schedule calls (whole run)
+        self._undo = []
+
+    def __enter__(self):
+        from openpectus.engine.command_manager import CommandManager
+        from openpectus.engine.engine import Engine
+        from openpectus.lang.exec.pinterpreter import PInterpreter
+        ins = self
+        o_it, o_ct, o_ec, o_se = PInterpreter.tick, CommandManager.tick, CommandManager._execute_command, Engine.set_error_state
+        o_sc = CommandManager.schedule
+
+        def schedule(self, req):
+            ins.scheduled += 1
+            return o_sc(self, req)
+
+        def interp_tick(self, *a, **kw):
+            ins.interp_calls += 1
+            try:
+                return o_it(self, *a, **kw)
+            except Exception as e:
+                ins.interp_raised.append(type(e).__name__)
+                raise
+
+        def cmd_tick(self, *a, **kw):
+            r = o_ct(self, *a, **kw)
+            ins.cmd_ok += 1
+            return r
+
+        def exec_command(self, req):
+            try:
+                return o_ec(self, req)
+            except Exception:
+                node_id, failed = None, None
+                try:
+                    rec = self.tracking.runtimeinfo.get_record_by_instance(req.instance_id)
+                    if rec is not None:
+                        node_id = rec.node_id
+                        node = self.tracking.get_known_node_by_id(rec.node_id)
+                        failed = None if node is None else bool(node.failed)
+                except Exception:
+                    pass
+                ins.cmd_failed.append((req.name, req.source, node_id, failed))
+                raise
+
+        def set_error_state(self, ex):
+            ins.set_error_calls += 1
+            return o_se(self, ex)
+        for cls, name, new, old in [(PInterpreter, "tick", interp_tick, o_it), (CommandManager, "tick", cmd_tick, o_ct),
+                                    (CommandManager, "_execute_command", exec_command, o_ec),
+                                    (CommandManager, "schedule", schedule, o_sc),
+                                    (Engine, "set_error_state", set_error_state, o_se)]:
+            setattr(cls, name, new)
+            self._undo.append((cls, name, old))
+        return self
+
+    def __exit__(self, *exc):
+        for cls, name, old in reversed(self._undo):
+            setattr(cls, name, old)
+        return False
+
+    def new_tick(self):
+        self.interp_raised = []
+        self.cmd_failed = []
+
+
+def all_nodes(root) -> list:
+    out, todo = [], [root]
+    while todo:
+        n = todo.pop()
+        out.append(n)
+        todo.extend(getattr(n, "children", None) or [])
+    return out
+
+
+TIME_TAGS = ("Clock", "Run Time", "Process Time", "Block Time", "Scope Time")   # formatted by format_time_as_clock
+CORRECTED = {"WatchNode": "Watch: T0 < -1", "AlarmNode": "Watch: T0 < -1", "BlockNode": "Block: Fixed",
+             "MacroNode": "Macro: Fixed"}
+
+
+def corrected_method(pcode: str, nodes: list[dict]):
+    """The method with every failed line replaced by a valid instruction of the same shape (same line ids)."""
+    lines = pcode.split("\n")
+    for n in nodes:
+        if n["failed"] and str(n["id"]).startswith("id_"):
+            i = int(str(n["id"])[3:]) - 1
+            if 0 <= i < len(lines):
+                indent = lines[i][:len(lines[i]) - len(lines[i].lstrip(" \t"))]
+                lines[i] = indent + CORRECTED.get(n["cls"], "Mark: fixed")
+    return "\n".join(lines)
+
+
 def oracle(case) -> list[Failure]:
+    with Instrument() as ins:
+        return _oracle(case, ins)
+
+
+def _oracle(case, ins: Instrument) -> list[Failure]:
     from harness.engine_run import EngineRun
     fails: list[Failure] = []
     try:
-        run = EngineRun(case["pcode"])
-    except Exception as e:  # setting a method must not crash the engine either, but that is not a tick
-        return [Failure(f"set-method-raised:{type(e).__name__}", case, str(e)[:200])]
+        run = EngineRun(case["pcode"], uod_extra=uod_extra)
+    except Exception:  # the method text was refused when it was set: no run, no tick — nothing C13 speaks about
+        return fails
+    e = run.engine
+    restarting = "Restart" in case["pcode"] or any(o[0] == "user" and o[1] == "Restart" for o in case["sched"]) \
+        or any(o[0] == "inject" and "Restart" in o[1] for o in case["sched"])
+    injected: list = []
+    st = {"prev_failed": set(), "prog": e.interpreter._program, "stop": None, "other_errors": 0}
+
+    def raw(snap, name):
+        return snap["raw_tags"].get(name)
+
+    def failed_now() -> set:
+        prog = e.interpreter._program
+        if st["prog"] is not prog:           # Stop / Start / an edit installed a new program: new node objects
+            st["prog"], st["prev_failed"] = prog, set()
+            injected.clear()                 # (snippets injected into the previous interpreter are gone with it)
+        s = {(id(n), n.id) for n in prog.get_all_nodes() if n.failed}
+        for root in injected:
+            s |= {(id(n), n.id) for n in all_nodes(root) if n.failed}
+        return s
+
+    def bad_time_tags() -> list:
+        # (as_readonly() raises TypeError in format_time_as_clock for these: recorded finding, repair proposed)
+        return [t.name for t in e._system_tags if t.name in TIME_TAGS and t.simulated
+                and not isinstance(t.simulated_value, (int, float))]
+
+    def in_started_macro(nodes: list[dict]) -> bool:
+        """a failed line inside a macro: the merge refuses to modify a macro that has started executing"""
+        by_id = {n["id"]: n for n in nodes}
+        for n in nodes:
+            if n["failed"]:
+                p = n
+                while p is not None:
+                    if p["cls"] == "MacroNode":
+                        return True
+                    p = by_id.get(p["parent"])
+        return False
+
+    def idle_and_gated() -> bool:
+        cm = e._command_manager
+        return (cm.cmd_queue.qsize() == 0 and not cm.cmd_executing and not e.registry.get_running_command_names()
+                and (e._runstate_paused or e._runstate_holding or not e._runstate_started))
+
+    def tick() -> dict | None:
+        """one tick + everything that is judged in every tick; None when the tick raised"""
+        ins.new_tick()
+        fresh = e.interpreter._last_error is None
+        se0 = ins.set_error_calls
+        snap = run.tick()
+        if snap["raised"]:
+            fails.append(Failure("tick-raised:" + snap["raised"].split(":")[0], case, snap["raised"][:300]))
+            return None
+        failed = failed_now()
+        new_failed = failed - st["prev_failed"]
+        st["prev_failed"] = failed
+        sysst, ms = raw(snap, "System State"), raw(snap, "Method Status")
+        instr_failures = len(ins.interp_raised) + len([c for c in ins.cmd_failed if c[1] != "user"])
+        st["other_errors"] += max(0, (ins.set_error_calls - se0) - len(ins.interp_raised) - (1 if ins.cmd_failed else 0))
+        # a failing instruction is marked failed …
+        if ins.interp_raised and fresh and not new_failed:
+            site = ":time-tag-simulated-non-numeric" if bad_time_tags() else ""
+            fails.append(Failure("interpreter-error-without-failed-instruction" + site, case,
+                                 f"the interpreter phase raised {ins.interp_raised[0]}, no instruction was marked failed"))
+        for name, source, node_id, node_failed in ins.cmd_failed:
+            if source != "user" and node_failed is False:
+                # (Tracking.silently_skip exempts Start/Stop/Restart requests from every mark_*: recorded finding)
+                site = ":" + name if name in ("Start", "Stop", "Restart") else ""
+                fails.append(Failure("failed-command-not-marked-failed" + site, case,
+                                     f"command '{name}' of instruction {node_id} failed in the command phase, its node is not marked failed"))
+        # … and pauses the run with Method Status Error
+        if (new_failed or instr_failures) and sysst not in ("Stopped", "Restarting"):
+            what = f"lines {sorted(i for _, i in new_failed)} failed" if new_failed else "an instruction failed"
+            if ms != "Error":
+                fails.append(Failure("failed-instruction-without-error-status", case, f"{what}, Method Status = {ms!r}"))
+            elif sysst != "Paused":
+                fails.append(Failure("failed-instruction-did-not-pause", case, f"{what}, System State = {sysst!r}"))
+        if new_failed and sysst not in ("Stopped", "Restarting"):
+            mstate = e.method_manager.get_method_state()
+            ids = {i for _, i in new_failed if str(i).startswith("id_")}
+            # (after a live edit the method manager's view is detached: C01 finding, not judged here)
+            if e.method_manager.program is e.interpreter._program and not ids <= set(mstate.failed_line_ids):
+                fails.append(Failure("failed-instruction-not-in-method-state", case,
+                                     f"{sorted(ids)} not in failed_line_ids {mstate.failed_line_ids}"))
+        # Stop: the run is stopped after `stopTicks` command phases that run (theorem stop_completes); every other
+        # request that was pending when Stop was accepted, or arrived since, can make one command phase fail
+        if st["stop"] is not None:
+            sp = st["stop"]
+            sp["ticks"] += 1
+            if not e._runstate_started:
+                st["stop"] = None
+            elif sp["ticks"] >= STOP_TICKS + sp["pending"] + (ins.scheduled - sp["sched0"]):
+                fails.append(Failure("stop-did-not-stop", case,
+                                     f"run still started {sp['ticks']} ticks after an accepted Stop with {sp['pending']} + "
+                                     f"{ins.scheduled - sp['sched0']} other requests pending (System State {sysst!r})"))
+                st["stop"] = None
+        return snap
+
+    def user(name: str) -> str:
+        cm = e._command_manager
+        pending = cm.cmd_queue.qsize() + len(cm.cmd_executing)
+        r = run.user(name)
+        st["stop"] = ({"ticks": 0, "pending": pending, "sched0": ins.scheduled}
+                      if (name == "Stop" and r == "ok" and not restarting) else None)
+        return r
+
     try:
-        prev_failed: set = set()
-        stop_age = None      # ticks since a user Stop was accepted (no other user command since)
         for op in case["sched"]:
             if op[0] == "user":
-                r = run.user(op[1])
-                # (a Restart issued by the method or the user races with Stop by design: not judged then)
-                restarting = "Restart" in case["pcode"] or any(o[0] == "user" and o[1] == "Restart" for o in case["sched"])
-                stop_age = 0 if (op[1] == "Stop" and r == "ok" and not restarting) else None
+                user(op[1])
             elif op[0] == "inject":
+                before = {id(i.node) for i in e.interpreter.interrupts}
                 run.inject(op[1])
+                injected += [i.node for i in e.interpreter.interrupts
+                             if id(i.node) not in before and type(i.node).__name__ == "InjectedNode"]
             elif op[0] == "tag":
                 run.set_tag(op[1], op[2])
-            else:
-                snap = run.tick()
-                if snap["raised"]:
-                    fails.append(Failure("tick-raised:" + snap["raised"].split(":")[0], case, snap["raised"][:300]))
-                    return fails
-                if stop_age is not None:
-                    stop_age += 1
-                    if stop_age == 4:
-                        if snap["raw_tags"].get("System State") != "Stopped":
-                            fails.append(Failure("stop-did-not-stop", case,
-                                                 f"System State {snap['raw_tags'].get('System State')!r} four ticks after an accepted Stop"))
-                        stop_age = None
-                failed = {n["id"] for n in snap["nodes"] if n["failed"]}
-                new_failed = failed - prev_failed
-                if new_failed and snap["raw_tags"].get("System State") not in ("Stopped", "Restarting"):
-                    if snap["raw_tags"].get("Method Status") != "Error":
-                        fails.append(Failure("failed-instruction-without-error-status", case,
-                                             f"lines {sorted(new_failed)} failed, Method Status = {snap['raw_tags'].get('Method Status')!r}"))
-                    elif snap["raw_tags"].get("System State") != "Paused":
-                        fails.append(Failure("failed-instruction-did-not-pause", case,
-                                             f"lines {sorted(new_failed)} failed, System State = {snap['raw_tags'].get('System State')!r}"))
-                    ms = run.engine.method_manager.get_method_state()
-                    # (after a live edit the method manager's view is detached: C01 finding, not judged here)
-                    if run.engine.method_manager.program is run.engine.interpreter._program and \
-                            not set(new_failed) <= set(ms.failed_line_ids):
-                        fails.append(Failure("failed-instruction-not-in-method-state", case,
-                                             f"{sorted(new_failed)} not in failed_line_ids {ms.failed_line_ids}"))
-                prev_failed = failed
-        # responsiveness: Stop is accepted in an error state and stops; a corrected method is accepted
+            elif tick() is None:
+                return fails
+        # ---- end games: the engine stays responsive to Stop and to a corrected method
         snap = run.snapshot()
-        if snap["raw_tags"].get("Method Status") == "Error" and snap["raw_tags"].get("System State") == "Paused":
-            if run.user("Stop") != "ok":
-                fails.append(Failure("stop-refused-in-error-state", case, "Stop raised in error state"))
-            else:
-                for _ in range(3):
-                    s2 = run.tick()
-                    if s2["raised"]:
-                        fails.append(Failure("tick-raised:" + s2["raised"].split(":")[0], case, s2["raised"][:300]))
+        end = case.get("end", "stop")
+        in_error_pause = raw(snap, "Method Status") == "Error" and raw(snap, "System State") == "Paused"
+        if not in_error_pause or restarting:
+            return fails
+        prog_failed = [n for n in snap["nodes"] if n["failed"]]
+        if end in ("fix", "stop-then-fix") and e._runstate_started and e.method_manager.program_is_started and prog_failed \
+                and st["other_errors"] == 0 and not e._runstate_stopping \
+                and e.method_manager.program is e.interpreter._program:
+            if end == "stop-then-fix":
+                if not idle_and_gated() or run.user("Stop") != "ok":
+                    return fails
+            try:
+                how = e.set_method(run.Mdl.Method.from_pcode(corrected_method(case["pcode"], snap["nodes"])))
+            except Exception as ex:
+                if type(ex).__name__ == "MethodEditError" and in_started_macro(snap["nodes"]):
+                    return fails          # refused with a reason, by design: started macros may not be edited
+                site = ":time-tag-simulated-non-numeric" if isinstance(ex, TypeError) and bad_time_tags() else ""
+                fails.append(Failure("corrected-method-refused:" + type(ex).__name__ + site, case,
+                                     f"saving the method with the failed lines corrected raised: {str(ex)[:200]}"))
+                return fails
+            if how != "merge_method":
+                return fails
+            s1 = run.snapshot()
+            if raw(s1, "Method Status") != "OK" or e.has_error_state():
+                fails.append(Failure("error-not-cleared-by-corrected-method", case,
+                                     f"after the merge Method Status = {raw(s1, 'Method Status')!r}, has_error_state = {e.has_error_state()}"))
+                return fails
+            if end == "stop-then-fix":
+                ok0 = ins.cmd_ok
+                for _ in range(STOP_TICKS + 2):
+                    if tick() is None:
                         return fails
-                if s2["raw_tags"].get("System State") != "Stopped":
-                    fails.append(Failure("stop-did-not-stop-in-error-state", case,
-                                         f"System State {s2['raw_tags'].get('System State')!r} three ticks after Stop"))
-            if run.edit("Mark: ok\n") != "ok":
-                fails.append(Failure("corrected-method-refused", case, "set_method of a valid method raised"))
+                if e._runstate_started:
+                    fails.append(Failure("stop-lost:method-saved-before-next-tick", case,
+                                         "Stop was accepted, a method was saved before the next tick, the run is still "
+                                         f"started after {ins.cmd_ok - ok0} command phases"))
+                return fails
+            if run.user("Unpause") != "ok":
+                fails.append(Failure("unpause-refused-after-corrected-method", case, "Unpause raised"))
+                return fails
+            holding = e._runstate_holding
+            calls0 = ins.interp_calls
+            s2 = tick()
+            if s2 is None:
+                return fails
+            if e._runstate_paused or raw(s2, "System State") != ("Holding" if holding else "Running") \
+                    or raw(s2, "Method Status") != "OK":
+                fails.append(Failure("run-not-resumed-after-corrected-method", case,
+                                     f"after Unpause: paused={e._runstate_paused} System State={raw(s2, 'System State')!r} "
+                                     f"Method Status={raw(s2, 'Method Status')!r}"))
+                return fails
+            if not holding:
+                if tick() is None:
+                    return fails
+                if ins.interp_calls == calls0:
+                    fails.append(Failure("interpreter-not-resumed-after-corrected-method", case,
+                                         "the interpreter phase did not run in the tick after the run was resumed"))
+            return fails
+        # Stop is accepted in the error state and stops the run
+        n_fail, se0 = len(fails), ins.set_error_calls
+        if user("Stop") != "ok":
+            fails.append(Failure("stop-refused-in-error-state", case, "Stop raised in error state"))
+            return fails
+        s2 = snap
+        while st["stop"] is not None:
+            s2 = tick()
+            if s2 is None:
+                return fails
+        if len(fails) > n_fail:
+            return fails
+        # (theorem stop_completes_clean: nothing failed since ⇒ System State Stopped, Method Status OK)
+        if ins.set_error_calls == se0 and (raw(s2, "System State") != "Stopped" or raw(s2, "Method Status") != "OK"):
+            fails.append(Failure("stop-did-not-stop-in-error-state", case,
+                                 f"System State {raw(s2, 'System State')!r}, Method Status {raw(s2, 'Method Status')!r} "
+                                 "after Stop completed"))
+            return fails
+        if raw(s2, "System State") != "Stopped":
+            return fails
+        if end == "restart":
+            # a second run of the same method: the failing instruction fails again and must pause again
+            if run.user("Start") != "ok":
+                fails.append(Failure("start-refused-after-stop", case, "Start raised after the run was stopped"))
+                return fails
+            n = next((k for k, o in enumerate(case["sched"]) if o[0] != "tick"), len(case["sched"]))
+            for _ in range(min(n, 12) + 2):
+                if tick() is None:
+                    return fails
+        elif run.edit("Mark: ok\n") != "ok":
+            fails.append(Failure("corrected-method-refused", case, "set_method of a valid method raised"))
         return fails
     finally:
         run.close()
+
+
+# ---------------------------------------------------------------------------------------------
+# fault injection into the real Engine.tick vs. the shell model (lean/Driver/TickShell.lean)
+
+FAULT_CMDS = ["Start", "Stop", "Pause", "Unpause", "Hold", "Unhold"]
+
+
+def gen_fault_case(rng, phases: list[dict]) -> list:
+    guarded = [i for i, p in enumerate(phases) if p["catches"]]
+    ops: list = []
+    if rng.random() < 0.85:
+        ops += [["user", "Start"], ["tick", {}, "n"]]
+        if rng.random() < 0.8:
+            ops.append(["tick", {}, "n"])
+    fixed = False
+    for _ in range(rng.randrange(6, 28)):
+        x = rng.random()
+        if x < 0.22:
+            ops.append(["user", rng.choice(FAULT_CMDS)])
+        elif x < 0.27 and not fixed:
+            # (one edit per case: whether a second one merges depends on the run-state transplant, see C01)
+            fixed = True
+            ops.append(["fix"])
+        elif x < 0.28:
+            ops.append(["halt"])
+        else:
+            plan: dict = {}
+            if rng.random() < 0.5:
+                for _ in range(rng.choice([1, 1, 1, 2, 3])):
+                    i = rng.choice(guarded) if rng.random() < 0.75 else rng.randrange(len(phases))
+                    kind = "h" if ("HardwareLayerException" in phases[i]["catches"] and rng.random() < 0.8) else rng.choice("ho")
+                    plan[str(i)] = kind
+            hf = "n" if rng.random() < 0.9 else rng.choice("fl")
+            ops.append(["tick", plan, hf])
+    return ops
+
+
+def fault_lines(ops: list) -> list[str]:
+    out = []
+    for op in ops:
+        if op[0] == "tick":
+            fs = ",".join(f"{i}:{k}" for i, k in op[1].items()) or "-"
+            out.append(f"tick\t{fs}\t{op[2]}")
+        elif op[0] == "user":
+            out.append(f"user\t{op[1]}")
+        else:
+            out.append(op[0])
+    return out + ["phases", "stopbound"]
+
+
+def fault_impl(ops: list) -> list[str]:
+    from harness.tick_faults import FaultRun
+    r = FaultRun()
+    try:
+        out = []
+        for op in ops:
+            if op[0] == "tick":
+                out.append(r.tick({int(i): k for i, k in op[1].items()}, op[2]))
+            elif op[0] == "user":
+                out.append(r.user(op[1]))
+            elif op[0] == "fix":
+                out.append(r.fix())
+            else:
+                out.append(r.halt())
+        return out + [str(len(r.phases)), str(STOP_TICKS)]
+    finally:
+        r.close()
+
+
+def fault_stream(ctx: Check, n: int) -> None:
+    from harness.translators import tick_table
+    phases = tick_table.tables()["phases"]
+    fixed_cases = [
+        # every phase faulted once with each kind, in a running and in an error-paused run
+        [["user", "Start"], ["tick", {}, "n"], ["tick", {}, "n"]] + [["tick", {str(i): k}, "n"], ["tick", {}, "n"]]
+        for i in range(len(phases)) for k in "ho"
+    ] + [
+        [["user", "Start"], ["tick", {}, "n"], ["tick", {}, "n"], ["tick", {str(i): "o"}, hf], ["tick", {}, "n"]]
+        for i in range(len(phases)) if phases[i]["catches"] for hf in "fl"
+    ]
+
+    def idx(callee: str) -> str | None:
+        return next((str(i) for i, p in enumerate(phases) if p["callee"] == callee), None)
+    ip, cm, rd, nt, wr = (idx(c) for c in ("self.interpreter.tick", "self._command_manager.tick", "self.uod.hwl.read_batch",
+                                           "self.notify_tag_updates", "hwl.write_batch"))
+    if None not in (ip, cm, rd, nt, wr):
+        up = [["user", "Start"], ["tick", {}, "n"], ["tick", {}, "n"], ["tick", {ip: "o"}, "n"]]    # paused on an error
+        fixed_cases += [
+            # Stop in the error pause under recurring faults; Stop lost by an edit; corrected method + Unpause
+            up + [["user", "Stop"], ["tick", {rd: "h", nt: "o"}, "n"], ["tick", {cm: "o"}, "n"], ["tick", {wr: "h"}, "n"],
+                  ["tick", {}, "n"]],
+            up + [["user", "Stop"], ["fix"], ["tick", {}, "n"], ["tick", {}, "n"], ["user", "Stop"], ["tick", {}, "n"],
+                  ["tick", {}, "n"]],
+            up + [["fix"], ["user", "Unpause"], ["tick", {}, "n"], ["tick", {}, "n"]],
+        ]
+    cases = fixed_cases + [gen_fault_case(ctx.rng, phases) for _ in range(n)]
+    for c in cases:
+        ctx.count("fault:" + ("handler-fault" if any(o[0] == "tick" and o[2] != "n" for o in c) else
+                              "faults" if any(o[0] == "tick" and o[1] for o in c) else "none"))
+    impl_out, model_out = ctx.correspond(
+        "tick-fault-injection", "TickShell", cases, lines=fault_lines, impl=fault_impl, impl_timeout=60,
+        nontrivial=lambda c, out: any("ms=Error" in ln or ln.startswith("r=1") for ln in out))
+    if model_out:
+        # the cases discriminate: without the injected faults the model answers differently
+        ctx.selftest("tick-fault-injection", "TickShell", cases,
+                     lambda c: fault_lines([["tick", {}, "n"] if o[0] == "tick" else o for o in c]), model_out)
 
 
 def run(ctx: Check) -> int:
     from harness.translators import tick_table
     tick_table.generate()
     ctx.prove(MODULE, REQUIRED)
-    ctx.rule = ("Translated table: all call sites of Engine.tick/read_process_image/write_process_image. M3 stream with "
-                "the malformed generator (unknown instructions, bad arguments, bad units, bad indentation, unknown "
-                "macros/tags). Oracle stream: malformed / unicode / random-line methods x schedules of ticks, user "
-                "control commands, injected snippets (valid and invalid) on the real engine; non-trivial = run with "
-                "at least one failed instruction or rejected command.")
-    m3_stream(ctx, "interp-m3-malformed", ctx.n(120, 2500), malformed=True)
-    cases = sweep_cases() + [gen_case(ctx) for _ in range(ctx.n(300, 3000))]
+    ctx.rule = ("Translated table: every call expression of Engine.tick/read_process_image/write_process_image/"
+                "set_error_state/_apply_safe_state + the phases of a tick. Fault-injection stream: every phase faulted "
+                "with each exception kind in a running and in an error-paused run, faults inside set_error_state, then "
+                "random schedules of ticks with random fault plans (0-3 phases, 75 % on guarded ones), user "
+                "Start/Stop/Pause/Unpause/Hold/Unhold, one method edit; non-trivial = a tick raised or ended with "
+                "Method Status Error. M3 stream with the malformed generator (unknown instructions, bad arguments, bad "
+                "units, bad indentation, unknown macros/tags). Oracle stream: malformed / unicode / random-line methods "
+                "(incl. UOD commands whose exec fails, engine commands with bad arguments) x schedules of ticks, user "
+                "control commands, injected snippets (valid and invalid) on the real engine, each followed by an end "
+                "game in the error pause (Stop / corrected method + Unpause / Stop + Start of a second run); "
+                "non-trivial = run with at least one failed instruction or rejected command.")
+    fault_stream(ctx, ctx.n(60, 1500))
+    m3_stream(ctx, "interp-m3-malformed", ctx.n(80, 2500), malformed=True)
+    cases = sweep_cases() + [gen_case(ctx) for _ in range(ctx.n(220, 3000))]
     ctx.monitor(cases, oracle, impl_timeout=60, timeout_key="tick-hangs")
-    ctx.assumptions = ["raise table: interpreter.tick, command_manager.tick, update_calculated_tags and notify_tag_updates "
-                       "may raise anything; hwl.read_batch / write_batch may raise HardwareLayerException; every other "
-                       "call site of the tick does not raise"]
+    ctx.assumptions = ["raise table (lean/OPM/Properties/C13.lean, `mayRaise`): every callee not listed may raise anything; "
+                       "listed as not raising: logging calls, builtin container methods, has_error_state / tracking.tick / "
+                       "_tick_timer.stop, hardware tick and register conversion callbacks (the property's assumption on "
+                       "callbacks), accessors of registered tags, emit_on_method_error (listener errors are swallowed: "
+                       "checked, `emitSwallows`); hwl.read_batch / write_batch raise HardwareLayerException only",
+                       "Stop bound: stopTicks command phases that run (theorem stop_completes) + one tick for every other "
+                       "request that was pending when Stop was accepted or arrived since (a request fails the command "
+                       "phase at most once)"]
     return ctx.finish(search=lambda c: c.monitor([gen_case(c) for _ in range(c.n(300, 2000))], oracle,
                                                  impl_timeout=60, timeout_key="tick-hangs"))
 
 
 def replay(obj) -> int:
     c = obj.get("case", {})
-    if "sched" in c:
+    if isinstance(c, dict) and "sched" in c:
         fs = oracle(c)
         print(c["pcode"])
         for f in fs:
             print("oracle:", f.key, f.detail)
         return 1 if fs else 0
-    print(obj)
-    return 0
+    if isinstance(c, list):     # a fault-injection case
+        from vp.core import drive
+        io, mo = fault_impl(c), drive("TickShell", [fault_lines(c)])[0]
+        for ln, a, b in zip(fault_lines(c), io, mo):
+            print(ln.replace("\t", " "), "|", a, "|", b if a != b else "=")
+        return 1 if io != mo else 0
+    rc = 0
+    for d in obj.get("disagreements", []):
+        if d.get("stream") == "tick-fault-injection" and isinstance(d.get("case"), list):
+            rc |= replay({"case": d["case"]})
+    if not obj.get("disagreements"):
+        print(obj)
+    return rc
